@@ -42,6 +42,10 @@ class Observer:
 class LockOracle(Observer):
     needs_ops = True
 
+    def __init__(self, prop="C08", only_after_failure=False):
+        self.prop = prop
+        self.only_after_failure = only_after_failure
+
     def attach(self, w):
         self.cleared = {}  # id(tensor) -> (weakref, clock)
         self.pending_clear = None
@@ -102,6 +106,8 @@ class LockOracle(Observer):
     # -- the oracle -----------------------------------------------------------------------
     def after(self, w, ev, out):
         self._apply_clear(w, ev, out)
+        if self.only_after_failure and out.status not in ("fail", "unexp"):
+            return
         self.check(w, ev)
 
     def _held(self, w):
@@ -151,33 +157,33 @@ class LockOracle(Observer):
                         must_lock = rec.name
             wr = bool(a.flags.writeable)
             if must_lock is not None:
-                if wr:
+                if wr and not self.only_after_failure:
                     if w.violation(
-                        "C08",
-                        "C08.must_be_locked",
+                        self.prop,
+                        f"{self.prop}.must_be_locked",
                         f"step {w.nstep} ({ev.get('k') if ev else 'end'}): array {hk} is an input/output (or base of one) of live op {must_lock} recorded with the guard on, but is writeable",
-                        tag=f"C08.must_be_locked/op={must_lock}/holder={kind.split('/')[0]}/ev={self._evtag(ev)}",
+                        tag=f"{self.prop}.must_be_locked/op={must_lock}/holder={kind.split('/')[0]}/ev={self._evtag(ev)}",
                     ):
                         return
                     continue
                 w.probe("c08.locked_ok")
             elif not referred:
-                if orig is False and wr:
+                if orig is False and wr and not self.only_after_failure:
                     if w.violation(
-                        "C08",
-                        "C08.never_promoted",
+                        self.prop,
+                        f"{self.prop}.never_promoted",
                         f"step {w.nstep}: array {hk} was read-only beforehand but is now writeable",
-                        tag=f"C08.never_promoted/origin={origin}/holder={kind.split('/')[0]}/ev={self._evtag(ev)}",
+                        tag=f"{self.prop}.never_promoted/origin={origin}/holder={kind.split('/')[0]}/ev={self._evtag(ev)}",
                     ):
                         return
                     continue
                 if entered and orig is True and not wr:
                     extra = f" (still referenced by unreachable live op {referred_unreachable}: leak)" if referred_unreachable else ""
                     if w.violation(
-                        "C08",
-                        "C08.must_be_restored",
+                        self.prop,
+                        f"{self.prop}.must_be_restored",
                         f"step {w.nstep} ({ev.get('k') if ev else 'end'}): no live graph refers to array {hk}, yet it is still read-only{extra}",
-                        tag=f"C08.must_be_restored/origin={origin}/holder={kind.split('/')[0]}/ev={self._evtag(ev)}" + ("/leak" if referred_unreachable else ""),
+                        tag=f"{self.prop}.must_be_restored/origin={origin}/holder={kind.split('/')[0]}/ev={self._evtag(ev)}" + ("/leak" if referred_unreachable else ""),
                     ):
                         return
                     continue
@@ -185,12 +191,12 @@ class LockOracle(Observer):
                     w.probe("c08.restored_ok")
             else:
                 w.probe("c08.dont_care")
-                if orig is False and wr:
+                if orig is False and wr and not self.only_after_failure:
                     if w.violation(
-                        "C08",
-                        "C08.never_promoted",
+                        self.prop,
+                        f"{self.prop}.never_promoted",
                         f"step {w.nstep}: array {hk} was read-only beforehand but is now writeable",
-                        tag=f"C08.never_promoted/origin={origin}/holder={kind.split('/')[0]}/ev={self._evtag(ev)}",
+                        tag=f"{self.prop}.never_promoted/origin={origin}/holder={kind.split('/')[0]}/ev={self._evtag(ev)}",
                     ):
                         return
                     continue
@@ -207,6 +213,8 @@ class LockOracle(Observer):
         return k
 
     def at_quiescence(self, w, held_arrays, orig, entered):
+        if self.only_after_failure:
+            return
         held = [(("A", ha), a, orig.get(ha), entered.get(ha), w.a_kind.get(ha, "?") + "/origin=" + w.a_origin.get(ha, "?")) for ha, a in held_arrays.items()]
         w.reachable_ops = set()
         self.check(w, None, quiescent=True, held=held)
@@ -707,3 +715,74 @@ class PartialClearOracle(Observer):
                     return
             else:
                 w.probe("c09.grad_matches_recorded")
+
+
+# ======================================================================================
+# C13 - a failed operation leaves no trace
+# ======================================================================================
+class NoTraceOracle(Observer):
+    """snapshot of every live object before a statement = snapshot after it, whenever the statement
+    raised: values, dtype, shape, constant flag, base identity, sharing matrix, writeable flags of
+    every caller array and tensor memory, object identity."""
+
+    KINDS = ("op", "inplace", "setshape", "backward", "terminal")
+
+    def attach(self, w):
+        self.snap = None
+
+    def _snapshot(self, w):
+        ts = {}
+        for h, t in w.T.items():
+            ts[h] = (id(t), t.data.tobytes(), str(t.dtype), t.shape, bool(t.constant), None if t.base is None else id(t.base))
+        arrs = {ha: (a.tobytes(),) for ha, a in w.A.items()}
+        hs = sorted(w.T)
+        share = []
+        for x in range(len(hs)):
+            for y in range(x + 1, len(hs)):
+                a, b = w.T[hs[x]].data, w.T[hs[y]].data
+                share.append(bool(a.size and b.size and np.shares_memory(a, b)))
+        return ts, arrs, hs, share
+
+    def before(self, w, ev):
+        if ev["k"] in self.KINDS:
+            self.snap = self._snapshot(w)
+            self.lingering = {h for h, t in w.T.items() if t.base is not None and t.creator is None}
+        else:
+            self.snap = None
+
+    def after(self, w, ev, out):
+        if self.snap is None or out.status not in ("fail", "unexp"):
+            return
+        if ev["k"] == "backward" and out.exc == "InvalidBackprop":
+            return  # gradients written before the error are C09's / C14's subject, not a "failed operation"
+        ts0, arrs0, hs0, share0 = self.snap
+        ts1, arrs1, hs1, share1 = self._snapshot(w)
+        kind = f"{ev['k']}:{ev.get('form') or ev.get('op') or ''}/{'injected' if ev.get('kf') else 'natural'}"
+        if hs0 != hs1:
+            w.violation("C13", "C13.handles", f"step {w.nstep}: live handles changed across a failed statement")
+            return
+        for h in hs0:
+            a, b = ts0[h], ts1[h]
+            names = ("identity", "value", "dtype", "shape", "constant", "base")
+            for n, x, y in zip(names, a, b):
+                if x != y:
+                    if n == "base" and h in self.lingering and y is None:
+                        continue  # a lingering base link may be dropped by any use (DESIGN C13)
+                    if w.violation(
+                        "C13",
+                        f"C13.snapshot_{n}",
+                        f"step {w.nstep}: statement ({kind}) raised {out.exc} but handle {h} changed its {n}",
+                        tag=f"C13.snapshot_{n}/{kind}",
+                    ):
+                        return
+        for ha in arrs0:
+            if ha in arrs1 and arrs0[ha] != arrs1[ha]:
+                what = "contents"
+                if w.violation("C13", "C13.snapshot_array", f"step {w.nstep}: statement ({kind}) raised {out.exc} but caller array {ha} changed its {what}", tag=f"C13.snapshot_array/{what}/{kind}"):
+                    return
+        if share0 != share1:
+            # lingering links again: sharing is physical, so it must not change at all
+            if w.violation("C13", "C13.snapshot_sharing", f"step {w.nstep}: statement ({kind}) raised {out.exc} but memory sharing between tensors changed", tag=f"C13.snapshot_sharing/{kind}"):
+                return
+        w.probe("c13.failed_statement_checked")
+        w.probe("c13.failed." + kind)
